@@ -4997,10 +4997,12 @@ class Entity(object, metaclass=EntityMeta):
                       'Value of %s.%s for %s was updated outside of current transaction (was: %r, now: %r)'
                       % (obj.__class__.__name__, attr.name, obj, old_dbval, new_dbval))
 
+            if wbits & bit:  # the attribute was changed in this session: the in-memory state (both sides) stays as is
+                obj._dbvals_[attr] = new_dbval
+                del new_vals[attr]
+                continue
             if attr.reverse: attr.db_update_reverse(obj, old_dbval, new_dbval)
             obj._dbvals_[attr] = new_dbval
-            if wbits & bit:
-                del new_vals[attr]
 
         for attr, new_val in new_vals.items():
             if attr.is_unique:
